@@ -345,6 +345,19 @@ def c07_no_parent_reads(repo_root, tier):
                     or (recv == "self" and cls is not None and (cls if isinstance(cls, str) else cls.name) == "RenderContext")
                 if is_ctx:
                     bad.append(f"{m.name}:{qual} line {n.lineno}: {ast.unparse(n)}")
+    # a block-scoped copy (an overriding block) is still inside whatever isolated the caller: it keeps the caller's disabled tags
+    n_bs = 0
+    for m, qual, cls, fn, parent in _all_functions(repo):
+        for c in _calls(fn):
+            if isinstance(c.func, ast.Attribute) and c.func.attr == "copy" and any(k.arg == "block_scope" and isinstance(k.value, ast.Constant) and k.value.value is True for k in c.keywords):
+                n_bs += 1
+                recv = ast.unparse(c.func.value)
+                kw = {k.arg: ast.unparse(k.value) for k in c.keywords}
+                okd = kw.get("disabled_tags") == f"{recv}.disabled_tags"
+                _ob(obs, f"{m.name}:{qual}/site.block-copy-keeps-disabled-tags@{_ordinal(fn, c)}", okd,
+                    f"{recv}.copy(.., block_scope=True, disabled_tags={recv}.disabled_tags)" if okd
+                    else f"{recv}.copy(.., block_scope=True) starts with no disabled tags: `include` inside an overriding block of a template loaded with `render` is allowed")
+    _ob(obs, "liquid2/site.block-scoped-copies.count", n_bs >= 2, f"{n_bs} block-scoped context copies")
     _ob(obs, "liquid2/site.context-parent-never-read", not bad,
         "no function reads the `parent` of a render context" if not bad
         else f"{bad[0]}: the calling context is reached from an isolated one - names bound by the caller become visible to the partial / macro body")
